@@ -152,10 +152,17 @@ def evaluate(ctx, cases):
             else:
                 bg = BycycleGroup(thresholds={}, return_samples=c['rs'])
                 target = sigs
-                if c['seed'] % 2 == 0:      # a buffer history: fitted on a buffer holding the signals in reverse order (both dimensions), refilled IN PLACE, fitted again
+                if c['seed'] % 3 == 0:      # a buffer history: fitted on a buffer holding the signals in reverse order (both dimensions), refilled IN PLACE, fitted again
                     target = np.array(sigs[::-1, ::-1])
                     implutil.quiet(bg.fit, target, fs, fr, axis=axis, n_jobs=1)
                     target[:] = sigs
+                elif c['seed'] % 3 == 1:    # a shape history: the same object was fitted before on a grid with the same number of rows and MORE or FEWER columns
+                    arr = np.asarray(sigs)  # (and, every other time, on one with another number of rows too)
+                    wide = np.concatenate([arr[:, ::-1], arr[:, :1] * 0.5], axis=1)
+                    prev = [wide, wide[:, :max(1, n1 - 1)], np.concatenate([wide, wide[:1]], axis=0)][(c['seed'] // 3) % 3]
+                    implutil.quiet(bg.fit, np.array(prev), fs, fr, axis=axis, n_jobs=1)
+                    if (c['seed'] // 9) % 2 == 0:
+                        implutil.quiet(bg.fit, np.array(wide[:, :1]), fs, fr, axis=axis, n_jobs=1)
                 implutil.quiet(bg.fit, target, fs, fr, axis=axis, n_jobs=c['n_jobs'])
                 res, models = bg.df_features, bg.models
             err = None
@@ -193,6 +200,8 @@ def evaluate(ctx, cases):
                 for j in range(n1):
                     if not res[i][j].equals(expected(pred[i][j])):
                         return 'entry [%d][%d] is not the analysis its position prescribes (%s)' % (i, j, pred[i][j])
+                    if models is not None and (len(models) != n0 or any(len(r) != n1 for r in models)):
+                        return 'models is not an %d x %d nested list: row lengths %r' % (n0, n1, [len(r) for r in models])
                     if models is not None and (not models[i][j].df_features.equals(res[i][j]) or not np.array_equal(models[i][j].sig, sigs[i, j])):
                         return 'models[%d][%d] does not mirror df_features / sigs' % (i, j)
             return None
